@@ -12,7 +12,7 @@ structure Canon (cfg : Cfg) (x : Raw) : Prop where
   edges : ∀ e ∈ x.edges, validE x.verts.length e = true ∧ e.1 < e.2
   faces : cfg.cf = true → ∀ c ∈ x.cells, ∀ f ∈ cellFacesC c, keyF f ∈ x.faces.map keyF
   hard : cfg.ce = true → x.faces ≠ [] → hasAttr x.eattrs hardName = true
-  sides : cfg.ce = true → ∀ s ∈ x.faces.flatMap faceSides, keyE s ∈ x.edges.map keyE
+  sides : cfg.ce = true → ∀ s ∈ validSides x.verts.length x.faces, keyE s ∈ x.edges.map keyE
   fc : x.fcElem = x.faces.flatten ∧ x.fcAdj = owners x.faces
   cc : x.ccElem = x.cells.flatten ∧ x.ccAdj = owners x.cells
   cf : ∃ idss, cellFaceIds (x.faces.map keyF) x.cells = .ok idss ∧ x.cfElem = idss.flatten ∧ x.cfAdj = owners idss
@@ -105,11 +105,10 @@ theorem prepare_canon (cfg : Cfg) (x : Raw) (hc : Canon cfg x) (h0 : x.prepared 
     genFaceCorners_canon cfg x hc, genCellCorners_canon cfg x hc, genCellFaces_canon cfg x hc]
   simp [h0]
 
-/-- the output of `prepare` on fresh raw data (empty corner containers) whose face sides are valid edges
-is canonical -/
+/-- the output of `prepare` on fresh raw data (empty corner containers) is canonical (degenerate faces included: their
+sides are never stored) -/
 theorem prepare_makes_canon (cfg : Cfg) (r p : Raw) (h0 : r.prepared = false) (h : prepare cfg r = .ok p)
-    (hfc : r.fcElem = []) (hcc : r.ccElem = []) (hcf : r.cfElem = [])
-    (hsides : ∀ s ∈ (facesAfter cfg r).flatMap faceSides, validE r.verts.length s = true) :
+    (hfc : r.fcElem = []) (hcc : r.ccElem = []) :
     Canon cfg p := by
   obtain ⟨hv, he, hf, hcells, _, hattrs, h1, h2, h3, h4⟩ := prepare_fields cfg r p h0 h
   have hn : p.verts.length = r.verts.length := by rw [hv]; simp
@@ -146,8 +145,8 @@ theorem prepare_makes_canon (cfg : Cfg) (r p : Raw) (h0 : r.prepared = false) (h
       exact ⟨finalAttr cfg r (hardAttr r.edges.length), List.mem_map.mpr ⟨_, by simp [this], rfl⟩,
         by rw [finalAttr_name]; simp [hardAttr]⟩
   · intro hce s hs
-    rw [hf] at hs
-    have hsv := hsides s hs
+    rw [hf, hn] at hs
+    have hsv : validE r.verts.length s = true := (List.mem_filter.mp hs).2
     have hmem : keyE s ∈ (edgesAfter cfg r).map keyE := by
       unfold edgesAfter; rw [if_pos hce]
       exact completeBy_complete keyE _ _ s hs
@@ -168,7 +167,6 @@ theorem prepare_makes_canon (cfg : Cfg) (r p : Raw) (h0 : r.prepared = false) (h
     simpa [completed_cells] using b
   · obtain ⟨q, hq, hp⟩ := prepare_ok cfg r p h0 h
     obtain ⟨_, _, _, hqf, hqc, _⟩ := genCellFaces_fields _ _ hq
-    have hs : (stages cfg r).cfElem = [] := by unfold stages; simp [c5, hcf]
     obtain ⟨idss, hi, e1, e2⟩ := genCellFaces_regen _ _ hq
     subst hp
     exact ⟨idss, by simpa [hqf, hqc] using hi, e1, e2⟩
@@ -205,7 +203,7 @@ theorem rewrap_canon (cfg : Cfg) (p : Raw) (d : Nat) (hc : Canon cfg p) : Canon 
         · exact hc.edges
         · intro _ c hcm; simp at hcm
         · intro _ hne; exact absurd rfl hne
-        · intro _ s hs; simp at hs
+        · intro _ s hs; simp [validSides] at hs
         · exact ⟨rfl, rfl⟩
         · exact ⟨rfl, rfl⟩
         · exact ⟨[], rfl, rfl, rfl⟩
@@ -214,7 +212,7 @@ theorem rewrap_canon (cfg : Cfg) (p : Raw) (d : Nat) (hc : Canon cfg p) : Canon 
         · intro e he; simp at he
         · intro _ c hcm; simp at hcm
         · intro _ hne; exact absurd rfl hne
-        · intro _ s hs; simp at hs
+        · intro _ s hs; simp [validSides] at hs
         · exact ⟨rfl, rfl⟩
         · exact ⟨rfl, rfl⟩
         · exact ⟨[], rfl, rfl, rfl⟩
